@@ -24,3 +24,8 @@ theorem advertised_windows :
     Generated.settingsWindowExpr = "initialWindowSize" ∧ Generated.newStreamWindowExpr = "initialWindowSize" := by decide
 
 end Proofs.Facts
+
+namespace Proofs.Facts
+/-- the context constructions the C17 model describes are the ones in the source -/
+theorem context_wiring : TunnelModel.Generated.ctxFacts.all (·.2) = true := by decide
+end Proofs.Facts
